@@ -1201,6 +1201,27 @@ impl Engine for Untrusted {
             flavour = f;
         }
         let wire = *rng.pick(&[Wire::Json, Wire::Json, Wire::Cbor, Wire::Cbor, Wire::JsonValue, Wire::JsonStr]);
+        if rng.chance(1, 1500) {
+            // a long document: a few nodes, 4100-5200 edges (size-dependent paths of a
+            // deserialiser), and only the mutations that do not grow with its length
+            let n = rng.range(2, 5);
+            let prios: Vec<u32> = (0..n).map(|_| rng.below(4) as u32).collect();
+            let ne = rng.range(4100, 5200);
+            let edges: Vec<(usize, usize, u64)> = (0..ne).map(|i| (rng.below(n), rng.below(n), 100 + i as u64)).collect();
+            let base_len = encode(&base_value(&prios, &edges), wire).len();
+            let mut mutations = vec![Mutation::None, Mutation::DropEdgeList, Mutation::Truncate(base_len / 2), Mutation::Truncate(base_len - 1)];
+            for i in 0..n {
+                mutations.push(Mutation::DropNode(i));
+                mutations.push(Mutation::RedeclareNode(i));
+            }
+            for edge in [0, 1, ne / 2, 4095.min(ne - 1), 4096.min(ne - 1), ne - 1] {
+                for end in 0..2 {
+                    mutations.push(Mutation::Retarget { edge, end, key: n + rng.below(3) });
+                }
+                mutations.push(Mutation::DropEdge(edge));
+            }
+            return UtSc { flavour, wire, prios, edges, hash_seed: rng.next_u64(), mutations, rplan: None };
+        }
         let small = rng.chance(3, 4);
         let (prios, edges) = gen_graph(rng, small, 6);
         let base = encode(&base_value(&prios, &edges), wire);
